@@ -192,6 +192,8 @@ class NativeVC:
             return ("id", id(x))
 
     def _shallow(self, x):
+        if isinstance(x, _LazyNativeDict):
+            return ("lazy", x._writes)
         if isinstance(x, dict):
             return tuple((self._ref(k), self._ref(v)) for k, v in list(x.items()))
         if isinstance(x, (list, set)):
@@ -333,6 +335,12 @@ class NativeVC:
 
     def forall(self, lo, hi, fn):
         return all(fn(m) for m in range(lo, hi))
+
+    def count(self, bools):
+        return sum(1 for b in bools if b)
+
+    def ite(self, c, a, b):
+        return a if c else b
 
     def assume(self, c):
         if not c:
@@ -608,6 +616,7 @@ class _LazyNativeDict(dict):
         self._vc, self._name, self._gen, self._default = vc, name, gen_value, default
         self._decided = set()
         self._n = 100
+        self._writes = 0  # real writes (frames): materialising an entry by looking at it is none
 
     def _touch(self, key):
         if dict.__contains__(self, key) or key in self._decided:
@@ -624,6 +633,7 @@ class _LazyNativeDict(dict):
     def __getitem__(self, key):
         self._touch(key)
         if not dict.__contains__(self, key) and self._default is not None:
+            self._writes += 1
             dict.__setitem__(self, key, self._default())
         return dict.__getitem__(self, key)
 
@@ -633,14 +643,23 @@ class _LazyNativeDict(dict):
 
     def pop(self, key, *default):
         self._touch(key)
+        if dict.__contains__(self, key):
+            self._writes += 1
         return dict.pop(self, key, *default)
+
+    def __delitem__(self, key):
+        self._touch(key)
+        self._writes += 1
+        dict.__delitem__(self, key)
 
     def __setitem__(self, key, value):
         self._decided.add(key)
+        self._writes += 1
         dict.__setitem__(self, key, value)
 
     def clear(self):
         # everything, also what was never looked at, is gone
+        self._writes += 1
         dict.clear(self)
         self._touch = lambda key: None
 
